@@ -845,7 +845,9 @@ Definition cs_generic (ch : Z) (translated : bool) (q : list Z) (items : list Ch
 
 (* \d \s \w and their complements (1724-1765) *)
 Definition cs_shorthand (it : CharClass.item) (q : list Z) (items : list CharClass.item) : pr (csyn * list Z) :=
-  if so then cs_next q chprev inrange items sub
+  (* since c605b5f the range flag follows the full scan when only scanning: before, "[a-\d" left it set and
+     countCaptures lost step with the main pass on `(?n:[a-\d\PL(])(b)` under ECMAScript *)
+  if so then cs_next q chprev false items sub
   else if inrange then
     (if negb (useE o) then PE PE_BadClassInCharRange q
      else cs_next q chprev false (it :: IRange 45 45 :: IRange chprev chprev :: items) sub)
@@ -855,16 +857,17 @@ Definition cs_shorthand (it : CharClass.item) (q : list Z) (items : list CharCla
 Definition cs_prop (c2 : Z) (p2 : list Z) (items : list CharClass.item) : pr (csyn * list Z) :=
   if useE o && negb (useU o) && (c2 =? 80) && inrange then PE PE_ShorthandClassInCharRange p2
   else if useE o && negb (useU o) && (c2 =? 112) then
-    (* 1771-1792: a literal 'p' with a range logic of its own *)
-    if so then cs_next p2 chprev inrange items sub
-    else if inrange then
-      (if 112 <? chprev then PE PE_ReversedCharRange p2
+    (* 1771-1792: a literal 'p' with a range logic of its own; cursor and flag move alike when only scanning (c605b5f) *)
+    if inrange then
+      (if so then cs_next p2 chprev false items sub
+       else if 112 <? chprev then PE PE_ReversedCharRange p2
        else cs_next p2 chprev false (IRange chprev 112 :: items) sub)
     else if longer p2 1 && hd_is p2 45 && negb (nth_is 1 p2 93) then
       let e := nth 1 p2 0 in
-      if e <? 112 then PE PE_ReversedCharRange (skipn 2 p2)
+      if so then cs_next (skipn 2 p2) chprev false items sub
+      else if e <? 112 then PE PE_ReversedCharRange (skipn 2 p2)
       else cs_next (skipn 2 p2) chprev false (IRange 112 e :: IRange 45 45 :: items) sub
-    else cs_next p2 chprev false (IRange 112 112 :: items) sub
+    else cs_next p2 chprev false (if so then items else IRange 112 112 :: items) sub
   else
     pdo r <- parse_property o p2 ;
     let '(id, q) := r in
